@@ -76,7 +76,7 @@ MUTATIONS = [
     dict(id="c02-interior-output-fused", file="cirkit/backend/torch/graph/optimize.py", old="            if any(m in outputs for m in match.entries[1:]):\n                continue\n", new="", expect={"C02": ["R12a:cirkit.backend.torch.graph.optimize.match_optimization_patterns:interior-output"]}),
     dict(id="c14-index-ignores-dim", file=TNODES, old="        return torch.index_select(x, self.dim + 1, self._indices)\n", new="        return x[:, self._indices]\n", expect={"C14": ["R5b:cirkit.backend.torch.parameters.nodes.TorchIndexParameter:used:dim"]}),
     dict(id="c14-reduce-sum-unshifted", file=TNODES, old="        return torch.sum(x, dim=self.dim + 1)\n", new="        return torch.sum(x, dim=self.dim)\n", expect={"C14": ["R5a:"]}),
-    dict(id="c14-softmax-axis-dropped", file=RPAR, old="    return TorchSoftmaxParameter(in_shape, dim=p.axis)\n", new="    return TorchSoftmaxParameter(in_shape)\n", expect={"C14": ["R1c:cirkit.backend.torch.rules.parameters.compile_softmax_parameter"], "C01": ["R1c:cirkit.backend.torch.rules.parameters.compile_softmax_parameter"]}),
+    dict(id="c14-softmax-axis-dropped", file=RPAR, old="    return TorchSoftmaxParameter(in_shape, dim=p.axis)\n", new="    return TorchSoftmaxParameter(in_shape)\n", expect={"C14": ["R1c:cirkit.backend.torch.rules.parameters.compile_softmax_parameter"], "C01": ["R1c:cirkit.backend.torch.rules.parameters.compile_softmax_parameter"], "C12": ["R1c:cirkit.backend.torch.rules.parameters.compile_softmax_parameter"]}),
     dict(id="c01-categorical-num-categories-dropped", file=RLAY, old="        num_categories=sl.num_categories,\n", new="", expect={"C01": ["R1c:cirkit.backend.torch.rules.layers.compile_categorical_layer"]}),
     dict(id="c06-concatenate-reversed", file=FUN, old="    for sc in scs:\n", new="    for sc in reversed(scs):\n", expect={"C06": ["R7e:cirkit.symbolic.functional.concatenate:operand-order"]}),
     # ---------------------------------------------------------------- behaviour-preserving variants: every check must stay quiet
@@ -186,4 +186,8 @@ MUTATIONS = [
     dict(id="c16-cover-and", file="cirkit/templates/region_graph/graph.py", old="            if scope != node.scope or sum(len(sc) for sc in scopes) != len(scope):\n", new="            if scope != node.scope and sum(len(sc) for sc in scopes) != len(scope):\n", expect={"C16": ["R8:cirkit.templates.region_graph.graph.RegionGraph._check_structure:"]}),
     dict(id="c16-partition-scope-unchecked", file="cirkit/templates/region_graph/graph.py", old="                    if ptn.scope != node.scope:\n", new="                    if ptn.scope > node.scope:\n", expect={"C16": ["R8:cirkit.templates.region_graph.graph.RegionGraph._check_structure:partition-scope-differs"]}),
     dict(id="q-check-structure-merged", quiet=True, file="cirkit/templates/region_graph/graph.py", old="            if scope != node.scope or sum(len(sc) for sc in scopes) != len(scope):\n", new="            if sum(len(sc) for sc in scopes) != len(scope) or scope != node.scope:\n", expect={}),
+    # ---------------------------------------------------------------- C12 / name tables
+    dict(id="c12-softmax-name-builds-sigmoid", file="cirkit/templates/utils.py", old="            return functools.partial(SoftmaxParameter, **kwargs)\n", new="            return functools.partial(SigmoidParameter)\n", expect={"C12": ["N1:cirkit.templates.utils.name_to_parameter_activation:case:softmax"]}),
+    dict(id="c20-categorical-name-builds-binomial", file="cirkit/templates/utils.py", old="            return functools.partial(CategoricalLayer, **kwargs)\n", new="            return functools.partial(BinomialLayer, **kwargs)\n", expect={"C20": ["N1:cirkit.templates.utils.name_to_input_layer_factory:case:categorical"]}),
+    dict(id="c12-softmax-dim-unshifted", file=TNODES, old="        return torch.softmax(x, dim=self.dim + 1)\n", new="        return torch.softmax(x, dim=self.dim)\n", expect={"C12": ["R5a:"], "C14": ["R5a:"]}),
 ]
